@@ -371,6 +371,12 @@ def _overdue_branch(d, inv):
     own resume time) for longer than the timer thread needs to notice it, and was not resumed."""
     out = []
     parked = inv.get("parked", [])
+    # timing clause: meaningless in an execution in which a thread lost the CPU for a while (stall deviation) -
+    # the timer thread's reaction and the in-flight refresh call are then late by construction
+    slack = OVERDUE_SLACK
+    for opts, ch in d.chooser.trace:
+        if 500 <= opts[ch] < 1000:
+            return out
     for dec in parked:
         if dec["op"] not in ("parallel", "map") or dec.get("vt") is None:
             continue
@@ -388,7 +394,7 @@ def _overdue_branch(d, inv):
             # resumed after that park?
             resumed = any(e["inv"] == inv["n"] and e["tick"] > pk["tick"] and tuple(e["path"][:len(P) + 1]) == P + (b,)
                           for e in d.world.entries)
-            if not resumed and dec["vt"] - pk["due"] > OVERDUE_SLACK:
+            if not resumed and dec["vt"] - pk["due"] > slack:
                 V(out, "C07", "suspended-although-a-branch-was-overdue",
                   f"invocation {inv['n']} of {d.program.get('name')}: {dec['op']} at {fmt_path(P)} suspended at t={dec['vt']} "
                   f"although branch {b} (parked on {pk['op']}) had been due since t={pk['due']} and was not resumed",
@@ -469,6 +475,24 @@ def judge_c06(d, _=None):
     most = _most_paths(d.program["seq"], ())
     for inv in d.invocations:
         faults = [f for f in inv.get("faults", []) if "call" in f]
+        sfaults = [f for f in inv.get("faults", []) if "state_call" in f]
+        if not faults and sfaults:
+            # the follow-up page fetch of a paginated checkpoint response (or of the initial history) failed
+            f = sfaults[0]
+            if inv["outcome"] == "hung":
+                V(out, "C06", "hang-after-failure",
+                  f"invocation {inv['n']} of {d.program.get('name')} never ended after GetDurableExecutionState call "
+                  f"{f['state_call']} failed ({f['name']}): {inv['end']}; stuck: {hang_signature(inv)}", stuck=hang_signature(inv))
+            later = [c["n"] for c in d.backend.calls if c["inv"] == inv["n"] and c["tick_begin"] > f["tick"]]
+            if later:
+                V(out, "C06", "api-call-after-failure",
+                  f"invocation {inv['n']}: GetDurableExecutionState call {f['state_call']} failed ({f['name']}) but checkpoint "
+                  f"calls {later} were still made", shape=_shapeclass(d))
+            if inv["outcome"] == "returned" and isinstance(inv.get("out"), dict) and inv["out"].get("Status") in ("SUCCEEDED", "PENDING"):
+                V(out, "C06", f"reported-{inv['out'].get('Status')}-after-failure",
+                  f"invocation {inv['n']} of {d.program.get('name')} returned {inv['out'].get('Status')} although "
+                  f"GetDurableExecutionState call {f['state_call']} failed ({f['name']})", shape=_shapeclass(d))
+            continue
         if not faults:
             continue
         f = faults[0]
